@@ -13,6 +13,12 @@ Edwards laws).  Message digests and Fiat–Shamir challenges are taken from the 
 recomputes them independently of the library where a standard hash is used); the handlers are
 structured as `… (e : Fp n)` so that recomputation from the message can replace the argument once
 the hash models are available.
+
+Adversarially constructed inputs (no honest signer) use, besides the `*.verify` ops,
+* `ecdsa.forge` — a freely chosen `(r, s, v)` under the key recovered from it (`Sig.ecdsaForge`; the
+  verification equation is the truth, cf. `Props.C15.ecdsa_recover_eq_not_sufficient`);
+* `bip340.wire`, `mina.wire` — the byte-level verifiers (range / canonicity checks, `lift_x`);
+* `bls.dst` — the ciphersuite identifiers of the BLS draft.
 -/
 namespace BronVerif.Drive.C15
 open BronVerif BronVerif.Drive BronVerif.Curves BronVerif.Sig
@@ -158,6 +164,64 @@ def withChallenge {n : Nat} (key : String) (model : Option (Fp n)) (line : Fp n)
   | none => k line
   | some e => if e = line then k e else .bad key ("challenge recomputed from the message = " ++ e.toHex ++ ", library/harness value = " ++ line.toHex)
 
+/-- `lift_x` of BIP-340 / the x-only decoders of BIP-340 and Mina: the curve point with affine
+x-coordinate `x < p` and the requested y-parity (`none` when `x ≥ p` or `x` is not an x-coordinate) -/
+def liftX (C : Params) (x : Nat) (odd : Bool) : Option (CPt C) :=
+  if h : C.p = 0 then none else
+    haveI : NeZero C.p := ⟨h⟩
+    if x ≥ C.p then none else
+    let xf : Fp C.p := Fp.ofNat C.p x
+    let rhs := xf * xf * xf + Fp.ofNat C.p C.a * xf + Fp.ofNat C.p C.b
+    match Fp.sqrt? rhs with
+    | none => none
+    | some y =>
+      if y * y ≠ rhs then none else
+      let y' := if (y.val % 2 == 1) == odd then y else -y
+      if (y'.val % 2 == 1) != odd then none else
+      some ⟨⟨some ([xf.val], [y'.val])⟩⟩
+
+/-- BIP-340 verification of the 32-byte key / 64-byte signature encodings (BIP-340 "Verification"):
+`P = lift_x(int(pk))`, `r = int(sig[0:32]) < p`, `s = int(sig[32:64]) < n`,
+`e = int(hash_{BIP0340/challenge}(bytes(r) ‖ bytes(P) ‖ m)) mod n`, `R = s•G − e•P`,
+fail if `R` is infinite, has odd y or `x(R) ≠ r`.  An `r` that is not an x-coordinate can never equal
+`x(R)`, so lifting it first (as the library's decoder does) decides the same predicate. -/
+def bip340Wire (C : Params) [NeZero C.n] (pk sg msg : ByteArray) : Bool :=
+  if pk.size ≠ 32 ∨ sg.size ≠ 64 then false else
+  let r := bytesToNatBE (sg.extract 0 32)
+  let s := bytesToNatBE (sg.extract 32 64)
+  if s ≥ C.n then false else
+  match liftX C (bytesToNatBE pk) false, liftX C r false with
+  | some P, some R =>
+    match bip340Challenge R P msg with
+    | some e => bip340Verify xOf evenY (gen' C) P R e (Fp.ofNat C.n s)
+    | none => false
+  | _, _ => false
+
+/-- Mina verification of the 64-byte signature encoding (`R.x ‖ s`, both little-endian, canonical):
+`R` = the point with that x and even y, accept iff `s•G = R + e•P` (the o1js verifier computes
+`s•G − e•P` and compares x and parity — the same predicate).  The Poseidon challenge `e` depends only on
+`(P, R.x, m)` and is taken from the line. -/
+def minaWire (C : Params) [NeZero C.n] (pk : CPt C) (sg : ByteArray) (e : Fp C.n) : Bool :=
+  if sg.size ≠ 64 then false else
+  let rx := bytesToNatLE (sg.extract 0 32)
+  let s := bytesToNatLE (sg.extract 32 64)
+  if s ≥ C.n then false else
+  match liftX C rx false with
+  | some R => schnorrVerify tf false (gen' C) pk R e (Fp.ofNat C.n s)
+  | none => false
+
+/-- ciphersuite identifiers of draft-irtf-cfrg-bls-signature §4.2 (signature / proof-of-possession tags) -/
+def blsDst (sigCurve kind : String) : Option String :=
+  let grp := if sigCurve == "bls12381g2" then some "G2" else if sigCurve == "bls12381g1" then some "G1" else none
+  let sfx := match kind with
+    | "b" => some ("SIG", "NUL") | "a" => some ("SIG", "AUG") | "p" => some ("SIG", "POP")
+    | "pop" => some ("POP", "POP") | _ => none
+  match grp, sfx with
+  | some g, some (pre, tag) => some ("BLS_" ++ pre ++ "_BLS12381" ++ g ++ "_XMD:SHA-256_SSWU_RO_" ++ tag ++ "_")
+  | _, _ => none
+
+def wireVerdict (rhs : String) : String := if rhs == "undecodable" then "reject" else rhs
+
 def handle (op : String) (args : List String) (rhs : String) : Verdict :=
   match op, args with
   /- ecdsa.verify <curve> <hash> <d|s> <pk> <msg> <digest> <r> <s> <v|-> <tag> => accept|reject -/
@@ -293,6 +357,48 @@ def handle (op : String) (args : List String) (rhs : String) : Verdict :=
       let expect : CPt S := blsAggregate ((List.zip sk hm).map fun (s, h) => blsSign (Fp.ofNat S.n s) h)
       spec "bls-aggverify" (acc (decide (expect = sig))) rhs
     | _, _, _, _, _, _ => .unsupported "args"
+  /- ecdsa.forge <curve> <hash> <msg> <digest> <r> <s> <v> => none | <Q>,<dv>,<sv>,<dn>,<sn>,<do>
+     a freely chosen triple (r,s,v): Q = RecoverPublicKey; verdicts of the default / strict verifier under Q
+     with v (dv, sv) and with v omitted (dn, sn), and of the default verifier under Q+G with v (do).
+     Truth (Sig.ecdsaForge, Props.C15.ecdsaForge_spec / ecdsa_verify_other_key): Q is the model's
+     recovered point; dv = dn = the textbook equation under Q; sv = sn = low-S ∧ that; do = reject. -/
+  | "ecdsa.forge", [cn, hash, msgs, dg, rs, ss, vs] => withCurve cn fun C =>
+    match fpOf C.n rs, fpOf C.n ss, vs.toNat?, hexToBytes? dg, hexToBytes? msgs with
+    | some r, some s, some v, some lineDigest, some msg =>
+      if s = 0 then .unsupported "s = 0 (NewSignature refuses it; not a forge case)" else
+      match digestOf hash msg lineDigest with
+      | none => .diff "digest recomputed by the Lean hash model differs from the Go stdlib digest"
+      | some digest =>
+      let e := digestToScalar C.n digest
+      match ecdsaForge xr (liftR C) lowS (gen' C) e r s v with
+      | none => spec "ecdsa-recover" "none" rhs
+      | some (Q, c, cs) =>
+        if Q = 0 then spec "ecdsa-recover" "none" rhs else
+        match rhs.splitOn "," with
+        | [qs, dv, sv, dn, sn, dother] =>
+          if qs ≠ renderPt Q then .bad "ecdsa-recover" ("expected=" ++ renderPt Q ++ " observed=" ++ qs) else
+          if dv ≠ acc c then .bad "ecdsa-forge-v" ("crafted (r,s,v) under its recovered key: the verification equation says " ++ acc c ++ ", library says " ++ dv) else
+          if dn ≠ acc c then .bad "ecdsa-forge-nov" ("crafted (r,s) under the key recovered with v=" ++ vs ++ ", v omitted: the verification equation says " ++ acc c ++ ", library says " ++ dn) else
+          if sv ≠ acc cs then .bad "ecdsa-forge-strict" ("strict verifier with v: expected=" ++ acc cs ++ " observed=" ++ sv) else
+          if sn ≠ acc cs then .bad "ecdsa-forge-strict" ("strict verifier without v: expected=" ++ acc cs ++ " observed=" ++ sn) else
+          if dother ≠ "reject" then .bad "ecdsa-forge-other-key" ("accepted with v under Q+G although the recovered key is Q") else .ok
+        | _ => .bad "ecdsa-recover" ("expected=" ++ renderPt Q ++ " observed=" ++ rhs)
+    | _, _, _, _, _ => .unsupported "args"
+  /- bip340.wire <pk32> <sig64> <msg> <tag> => accept|reject|undecodable  (the byte-level BIP-340 verifier) -/
+  | "bip340.wire", [pkb, sigb, msgs, _tag] => withCurve "k256" fun C =>
+    match hexToBytes? pkb, hexToBytes? sigb, hexToBytes? msgs with
+    | some pk, some sg, some msg => spec "bip340-wire" (acc (bip340Wire C pk sg msg)) (wireVerdict rhs)
+    | _, _, _ => .unsupported "args"
+  /- mina.wire <pk> <sig64> <e> <tag> => accept|reject|undecodable -/
+  | "mina.wire", [pks, sigb, es, _tag] => withCurve "pallas" fun C =>
+    match parsePt C pks, hexToBytes? sigb, fpOf C.n es with
+    | some pk, some sg, some e => spec "mina-wire" (acc (minaWire C pk sg e)) (wireVerdict rhs)
+    | _, _, _ => .unsupported "args"
+  /- bls.dst <sigcurve> <b|a|p|pop> => <hex of the domain separation tag the scheme uses> -/
+  | "bls.dst", [sc, kind] =>
+    match blsDst sc kind with
+    | some d => spec "bls-dst" (bytesToHex d.toUTF8) rhs
+    | none => .unsupported "args"
   | _, _ => .unsupported ("C15 op " ++ op)
 
 end BronVerif.Drive.C15
